@@ -53,7 +53,14 @@ func c36Scenarios(thorough bool) []driver.Scenario {
 	// channel-level families first (cheap executions, many schedules), then the whole-stack ones
 	take(chanx.Scenarios("C11", false), first(1), b)
 	take(chanx.Scenarios("C18", false), func(i int, _ driver.Scenario) bool { return i == 1 }, b)
-	take(chanx.Scenarios("C16", false), explored, b)
+	nC16 := 0
+	take(chanx.Scenarios("C16", false), func(_ int, s driver.Scenario) bool {
+		if s.Sequential || nC16 >= 2 {
+			return false
+		}
+		nC16++
+		return true
+	}, b)
 	take(chanx.Scenarios("C19", false), func(i int, _ driver.Scenario) bool { return i == 0 || i == 5 }, b)
 	for i := range out {
 		out[i].MaxExec = 150 // per worker: the quick tier spreads its budget over all scenario families
